@@ -20,7 +20,8 @@ BOUNDS = {
     "quick": "simplex: every A in {-1,0,1}^(m x n) for m,n<=2 and a VERIF_SEED sample (152) of A in {-2..2}^(m x n) up to 3x3, minimize and "
              "maximize, 2 sampled grid vectors per pass; pass b: b unbounded Reals, c from {-1,0,1,2}^n sampled; pass c: c = k/8 with k unbounded Ints, b from {-2..3}^m sampled; "
              "tolerance 1e-7 on feasibility/objective (eps=1e-10 guards are executed exactly); max_iter in 0..3 on a sample. "
-             "interior point: FEASIBLE / MAX_ITER / OPTIMAL exits from an arbitrary interior state for 1x1..2x2 (see evidence.assumptions)",
+             "interior point: FEASIBLE / MAX_ITER / OPTIMAL exits from an arbitrary interior state for 1x1..2x2 (see evidence.assumptions); plus, natively on every path witness, "
+             "the unstubbed solver with its default budget must not raise and an OPTIMAL answer must match the simplex optimum (solver-generated tests, not a for-all verdict)",
     "thorough": "every A in {-2..2}^(m x n), m,n<=2, all c / b grid points; 3x2, 2x3, 3x3 samples x10; bilinear pass (b and c symbolic) on 2x2 {-1,0,1}",
 }
 OUTSIDE = ("A beyond the enumerated/sampled integer matrices; badly scaled data; float rounding (exact reals); interior point: convergence over "
@@ -34,7 +35,7 @@ ASSUMPTIONS = [
 ]
 STUBS = ["solvor.simplex.array := list shim", "solvor.interior_point._initialize := arbitrary interior state", "solvor.interior_point.sqrt := sound linear over-approximation (fresh t >= |r_i| for each squared residual)",
          "solvor.interior_point._solve_newton := cut"]
-GOALS = {"quick": ["lp.optimal", "lp.infeasible", "lp.unbounded", "lp.phase1", "lp.maximize", "lp.max_iter", "ip.feasible_exit", "ip.optimal_exit"],
+GOALS = {"quick": ["lp.optimal", "lp.infeasible", "lp.unbounded", "lp.phase1", "lp.maximize", "lp.max_iter", "ip.feasible_exit", "ip.optimal_exit", "ip.native_full_run"],
          "thorough": ["lp.optimal", "lp.infeasible", "lp.unbounded", "lp.phase1"]}
 OPTS = {"quick": {"qto": 8000, "path_wall": 40.0, "arith_solver": 2}, "thorough": {"qto": 30000, "path_wall": 120.0, "arith_solver": 2}}
 
@@ -202,7 +203,7 @@ def h_ip(s, A, c, minimize, max_iter):
     Ain = [[float(v) for v in row] for row in A]
     res = mod.solve_lp_interior([float(v) for v in c], Ain, list(b), minimize=minimize, max_iter=max_iter)
     st = res.status
-    s.observe("status", int(st))
+    # (no status observation here: the weak sqrt stub over-approximates both sides of the exit tests, so some symbolic paths have no native twin)
     x = list(res.solution) if res.solution is not None else None
     if st in (Status.FEASIBLE, Status.OPTIMAL):
         tol = 0.01 if st == Status.FEASIBLE else 1e-6
@@ -221,6 +222,26 @@ def h_ip(s, A, c, minimize, max_iter):
     else:
         s.check(st in (Status.MAX_ITER, Status.INFEASIBLE, Status.UNBOUNDED), "ip.status_known", detail=str(st))
         s.goal("ip.other_exit")
+    if not s.symbolic:
+        # Native layer (not a for-all verdict): the path's witness right-hand side goes through the REAL, unstubbed solver with its default
+        # iteration budget; it must not raise, and an OPTIMAL answer must be feasible and agree with the simplex optimum.
+        s._restore()
+        smod = importlib.import_module("solvor.simplex")
+        bw = [float(v) for v in b]
+        try:
+            full = mod.solve_lp_interior([float(v) for v in c], Ain, bw, minimize=minimize)
+        except Exception as e:  # noqa: BLE001
+            s.check(False, "native:ip.full_run_does_not_crash", detail="%s: %s" % (type(e).__name__, e))
+            return
+        s.check(True, "native:ip.full_run_does_not_crash")
+        if full.status == Status.OPTIMAL:
+            xs_ = list(full.solution)
+            feas_ok = all(v >= -1e-6 for v in xs_) and all(sum(a * v for a, v in zip(A[i], xs_)) <= bw[i] + 1e-5 for i in range(m))
+            ref = smod.solve_lp([float(v) for v in c], Ain, bw, minimize=minimize)
+            agree = ref.status == Status.OPTIMAL and abs(ref.objective - full.objective) <= 1e-3 * (1 + abs(ref.objective))
+            s.check(feas_ok and agree, "native:ip.full_run_optimal_is_feasible_and_matches_simplex",
+                    detail={"ip": [str(full.status), full.objective], "simplex": [str(ref.status), ref.objective], "b": bw})
+        s.goal("ip.native_full_run")
 
 
 def _mats(m, n, vals):
@@ -268,7 +289,7 @@ def items(tier, rng):
             out.append({"name": "lp_bc_2x2", "harness": "h_lp", "params": {"A": A, "mode": "bc", "fixed": None, "minimize": True},
                         "wall_s": 120, "query_timeout_ms": 20000})
     # interior point exits
-    ipA = [[[1]], [[1, 1]], [[1], [1]], [[1, 2], [3, 1]], [[1, -1], [1, 1]], [[2, 1]]]
+    ipA = [[[1]], [[1, 1]], [[1], [1]], [[1, 2], [3, 1]], [[1, -1], [1, 1]], [[2, 1]], [[1, -2], [-1, -1]], [[-1, 0]], [[0, 3]], [[-3, 0], [-3, -2]]]
     for A in ipA:
         n = len(A[0])
         for cvec in ([1] * n, [-1] * n, [1, -2][:n]):
